@@ -134,6 +134,7 @@ def run_validator_file(text):
 
 NO_VERDICT_S = 25
 _IN_WORKER = [False]
+_NO_VERDICT_CONFIRMED = [False]
 
 
 def confirm_no_verdict(text):
@@ -161,7 +162,9 @@ def run_validator(text, extension=False):
     # "validation terminates": a verdict normally takes milliseconds.  A text that gets none within NO_VERDICT_S seconds is
     # re-run alone in a fresh process with a longer limit before anything is reported (confirm_no_verdict)
     t0 = time.time()
-    prev = signal.alarm(NO_VERDICT_S) if _IN_WORKER[0] and len(text) < 20000 else None
+    # once a text without verdict has been confirmed in this worker, further ones are cut short and dropped
+    limit = 4 if _NO_VERDICT_CONFIRMED[0] else NO_VERDICT_S
+    prev = signal.alarm(limit) if _IN_WORKER[0] and len(text) < 20000 else None
     try:
         with contextlib.redirect_stdout(buf):
             r = parse_string(text, used_in_extension=extension)
@@ -172,7 +175,12 @@ def run_validator(text, extension=False):
             raise  # the job's own limit
         res["exc"] = "NoVerdict"
         res["exc_msg"] = "no verdict within %d s" % NO_VERDICT_S
-        if not confirm_no_verdict(text):
+        if _NO_VERDICT_CONFIRMED[0]:
+            res["exc"] = None
+            raise
+        if confirm_no_verdict(text):
+            _NO_VERDICT_CONFIRMED[0] = True
+        else:
             # a loaded machine, not the validator: drop the case like any other harness time-out
             if prev:
                 signal.alarm(max(1, int(prev - (time.time() - t0))))
